@@ -7,8 +7,10 @@ PROP = dict(
          "values; every big.Int type at 0, +-1, +-2^w boundaries and random; every BitsN length; ton.Bits256, tl.Int256, "
          "Grams, SignedCoins (negatives incl. min int64), Magic; bit strings of 0..1023 bits (boundaries over-weighted); all "
          "four address kinds, standard workchains -128..127 in turn, variable workchains over the int32 range, anycast "
-         "present/absent, lengths 0..1023; Maybe[T] for ten instantiations; cells (random DAGs with references), account "
-         "ids, message-body envelopes. Every sixth value (every third in the thorough tier) is followed by ~130 mutated "
+         "present/absent, lengths 0..1023, and on every run the workchain boundaries -128, -127, -1, 0, 1, 126, 127 (std) / "
+         "-129, 128, +-2^15, +-2^31 (var); Maybe[T] for eleven instantiations incl. a composite record; cells (random DAGs with references), account "
+         "ids, message-body envelopes (hand-made object documents: key case, duplicates, nulls, wrong types, op-code range). "
+         "Every sixth value (every third in the thorough tier) is followed by ~130 mutated "
          "documents (quotes dropped/added, signs, spaces, leading zeros, exponents, underscores, overlong and boundary "
          "numbers, wrong lengths, non-hex, truncations, byte replacement, other JSON types, non-ASCII bytes). "
          "non-trivial = distinct (family, value) pair",
@@ -22,16 +24,20 @@ PROP = dict(
         "hex.DecodeString, the parts of fmt.Fscanf/Sscanf used (%x into []byte, %d into uint32), encoding/json's scanner",
     ],
     assumptions=[
-        "rune-wise Go functions (fmt.Fscanf for ton.Bits256, fmt.Sscanf for the anycast suffix, `range` over the Fift hex "
-        "string) are modelled byte-wise: the model is compared on ASCII documents for these families; documents with "
-        "non-ASCII bytes go through the direct oracles only (never panic; accepted values round-trip)",
-        "json.Unmarshal into a Go string (tl.Int256, ton.AccountID): escapes are resolved, \\u escapes of surrogate pairs and "
-        "invalid UTF-8 are not reproduced exactly (they can never be hex digits)",
-        "boc.Cell / tlb.Any (BOC hex, C01/C07), ton.AccountID (raw form, C17): only the JSON wrapping is modelled, the inner "
-        "codec is a parameter of json_roundtrip_wrapped / json_roundtrip_via_string and is exercised on the real code by "
-        "go.json.rt / go.json.mal",
-        "abi.InMsgBody / ExtOutMsgBody envelopes: direct oracles only (empty, unknown = cell, every registered body type at its "
-        "zero value compared through its own JSON); struct-level JSON of composite records is not claimed",
+        "rune-wise Go functions (fmt.Fscanf for ton.Bits256, fmt.Sscanf for the anycast suffix) read the input through a "
+        "transcription of utf8.DecodeRune (invalid sequences = U+FFFD, one byte) and fmt's full space table; documents with "
+        "arbitrary bytes are compared with the model for every family. json.Unmarshal into a Go string is modelled with "
+        "escapes, surrogate pairs and the U+FFFD sanitation (goUnquote)",
+        "boc.Cell / tlb.Any: the PARSE side is the BOC reader model of C01/C07 (compared on every cell document and its "
+        "mutations); the PRINT side needs the cell order chosen by the Go writer, which C01 leaves as the premise "
+        "order_valid — json_roundtrip_cell is stated for the writer's order and the printed text itself is checked by the "
+        "direct round-trip oracle only. ton.AccountID (raw form, C17): wrapper theorem with the inner codec as a parameter",
+        "abi.InMsgBody / ExtOutMsgBody: the envelope (object members, key folding, duplicate keys, null, wrong JSON types, "
+        "OpCode range) is modelled and compared on hand-made and mutated documents; the registry of known body types and "
+        "their struct-level JSON stay on the Go side (a named body is reported by name); in json_roundtrip_envelope_known "
+        "the body type's own JSON is a hypothesis (ValueText + its round trip)",
+        "Maybe of a composite record is modelled for tlb.Maybe[tlb.Anycast] (encoding/json's struct codec for two uint32 "
+        "fields); other composite records are not claimed",
         "tlb.HashmapE has an encoder only and is outside the statement",
     ],
     partial=[
@@ -41,8 +47,8 @@ PROP = dict(
         "(decimal_signed_out_of_range)",
         "msgaddress_extern_empty_not_roundtrip: zero-length addr_extern prints \"\" and parses as addr_none (known finding; the "
         "round-trip theorem excludes it through AddrDomain)",
-        "json_parse_total / json_valid cover the modelled families; for Cell/Any/AccountID/envelopes 'never panics' rests on the "
-        "direct oracle go.json.mal (currently hitting the C07 BOC-parser panics recorded as known findings)",
+        "json_parse_total / json_valid cover the modelled families; Cell/Any and the envelopes: json_parse_total_cell (via C07 "
+        "parse_total), json_parse_total_envelope, json_valid_envelope; ton.AccountID: direct oracle go.json.mal only",
     ],
     level_text="Theorems for ALL inputs about the model: strconv read-back of %d for every bit size 1..64 with the exact range "
                "behaviour (decimal_roundtrip_unsigned/signed, out-of-range literals rejected), big integers of any size, "
@@ -51,7 +57,9 @@ PROP = dict(
                "strings of any length, MsgAddress for every address of the property's domain (all kinds, any anycast, "
                "workchain and length; the look-alike exclusion is proved to be exactly the ambiguous case), every printer's "
                "output accepted by the transcribed JSON scanner (json_valid), no parser panics on any input "
-               "(json_parse_total). The ~170 generated types are tied to the model by the regenerated table (174 decided "
+               "(json_parse_total); cells through the BOC model (json_roundtrip_cell, relative to C01 order_valid), the "
+               "message-body envelopes (json_roundtrip_envelope_empty/unknown/known, json_roundtrip_unknown_body_cell end to "
+               "end), Maybe of a composite record (json_roundtrip_maybe_anycast). The ~170 generated types are tied to the model by the regenerated table (174 decided "
                "obligations + generated_*_types_roundtrip quantify over the table). The model is tied to the code by exact "
                "correspondence on ~85k lines per quick run (6.4M lines thorough) and by direct round-trip / validity / "
                "no-panic oracles on the real json.Marshal/json.Unmarshal.",
